@@ -8,6 +8,16 @@ import operator
 import types
 
 
+def _instance_attrs(a, b, path, seen):
+    """instances of subclasses of the builtin containers can carry attributes of their own: part of the value"""
+    if type(a) in (list, tuple, set, frozenset, dict):
+        return None
+    da, db = getattr(a, "__dict__", None), getattr(b, "__dict__", None)
+    if isinstance(da, dict) or isinstance(db, dict):
+        return same(dict(da or {}), dict(db or {}), path + ".__dict__", seen)
+    return None
+
+
 def same(a, b, path="obj", seen=None, strict_order=True):
     """None if `a` and `b` are the same value, else a one-line description of the first difference"""
     import numpy as np
@@ -91,13 +101,13 @@ def same(a, b, path="obj", seen=None, strict_order=True):
             d = same(x, y, f"{path}[{i}]", seen)
             if d:
                 return d
-        return None
+        return _instance_attrs(a, b, path, seen)
     if isinstance(a, (set, frozenset)):
         if len(a) != len(b):
             return f"{path}: set size {len(a)} vs {len(b)}"
         try:
             if a == b and sorted(map(repr, map(type, a))) == sorted(map(repr, map(type, b))):
-                return None
+                return _instance_attrs(a, b, path, seen)
         except Exception:
             pass
         return f"{path}: set contents differ"
@@ -118,7 +128,7 @@ def same(a, b, path="obj", seen=None, strict_order=True):
             d = same(x, y, f"{path}[{k!r}]", seen)
             if d:
                 return d
-        return None
+        return _instance_attrs(a, b, path, seen)
     if isinstance(a, (bytearray,)):
         return None if a == b else f"{path}: bytearray differs"
     if isinstance(a, slice):
